@@ -109,3 +109,11 @@ Definition scenario_weights (f : sfmt) (ws : list Z) : rres (list Z) :=
   | FHcl => if weights_valid ws then spread_raw ws else VErr          (* ConvertHCLToAmmo -> DecodeMap *)
   | FYaml | FYml => if weights_valid ws then spread_raw ws else VErr  (* ParseAmmoConfig -> DecodeMap *)
   end.
+
+(* the request list of a scenario through the same dispatch: both parsers hand the strings of
+   `requests` unchanged to convertScenarioToAmmo *)
+Definition scenario_requests (f : sfmt) (known : bytes -> bool) (reqs : list bytes) : rres (list step * list Z) :=
+  match f with
+  | FOther => VErr
+  | FHcl | FYaml | FYml => convert known reqs [] []
+  end.
